@@ -1,7 +1,7 @@
 (* Props/C05.v — property theorems only; each closed by `exact <lemma>` (proofs in Lmmm/{Layout,LayoutProg}.v).
 
-   C05 (state layout exactness): for every well-formed program (the fragment without stateful constructs
-   inside `if` arms = finding F2) the compiler's state-offset bookkeeping (pending next_state_offset /
+   C05 (state layout exactness): for every well-formed program (stateful constructs inside `if` arms
+   included, since the repair of finding F2) the compiler's state-offset bookkeeping (pending next_state_offset /
    push_sum, mirrored by Lmmm/Compile.v) and the cursor machine (Lmmm/Machine.v, mirroring vm.rs) agree
    with the published state skeleton: every dsp call returns the cursor to the origin, the storage has
    exactly the size of the skeleton, and every state access (GetState / SetState / Mem / Delay) hits
@@ -37,12 +37,20 @@ Theorem C05_run_layout_exact : forall p cp t0 rows,
          (mach_run VmD p cp t0 rows m0).
 Proof. exact run_layout_exact. Qed.
 
-(* the F2 class really breaks the property
-   (witness: fn cnt(i){self+i} fn dsp(){ if (cnt(1)) cnt(10) else cnt(100) }) *)
-Theorem C05_branch_refuted : exists p cp,
-  compile p = Some cp /\ wf_prog p = false /\
-  mach_step VmD p cp 0%Z [] m0 = None.          (* cursor underflow: the real VM panics / corrupts memory *)
-Proof. exact f2_refuted. Qed.
+(* the former witness of finding F2 (stateful calls in both arms of an `if`; the unrepaired compiler made
+   the VM cursor underflow) is now inside the fragment and behaves:
+   fn cnt(i){self+i} fn dsp(){ if (cnt(1)) cnt(10) else cnt(100) } — each call site owns its own cell *)
+Example C05_f2_witness_wf : wf_prog f2_prog = true.
+Proof. exact f2_prog_wf. Qed.
+Example C05_f2_witness_compiles : compile f2_prog = Some (compiled f2_prog).
+Proof. exact f2_prog_compiles. Qed.
+Example C05_f2_witness_skeleton :
+  published_skeleton (compiled f2_prog) = FnCall [FnCall [Feed 1%N]; FnCall [Feed 1%N]; FnCall [Feed 1%N]].
+Proof. exact f2_prog_skeleton. Qed.
+Example C05_f2_witness_runs :
+  outs_of (mach_run VmD f2_prog (compiled f2_prog) 0 [[]; []; []] m0) = [Some [10]; Some [20]; Some [30]]%Z /\
+  option_map fst (ref_run f2_prog 0 [[]; []; []] st0) = Some [[10]; [20]; [30]]%Z.
+Proof. exact f2_prog_runs. Qed.
 
 (* the hypotheses are satisfiable on a non-trivial program:
    fn f1(x){ self + x }  fn f2(y){ mem(y) + delay(3, y, 2) }  fn dsp(){ (f2(f1(1)) + now, samplerate) } *)
